@@ -36,7 +36,8 @@ def key_of(row, off=0):
     op = row.get("op")
     cls = str(row.get("cls", ""))
     if op in ("dateND", "dateND2"):
-        return "tmDateIsValid2:octet>9-accepted"
+        v = [off + 10] if op == "dateND" else [off // 32, off % 32]
+        return "tmDateIsValid2:octet>9-accepted" if max(v) > 9 else "tmDateIsValid2:digits:pos=%d" % row.get("pos", 0)
     if op == "dateYY":
         return "tmDateIsValid2:digits:mmdd=%04d" % off
     if op == "dateYMD":
@@ -311,6 +312,10 @@ def run(ctx):
             for cls, y in (("y=0", 0), ("y=1", 1), ("y=p-1", ps.v["p"] - 1), ("y=p", ps.v["p"]), ("y=p+1", ps.v["p"] + 1), ("y=seeded", rng.randrange(2, ps.v["p"])),
                            ("y=all-ones", (1 << (8 * no)) - 1)):
                 cmds.append("pubkeyVal %s Q=%s cls=%s" % (base, G.hx(y, no), cls))
+    # parameter generation from the standard seeds (stb99: every level; pfok: the test level - the others take hours)
+    for nm in ["test", "1.2.112.0.2.0.1176.2.3.3.1", "1.2.112.0.2.0.1176.2.3.6.1", "1.2.112.0.2.0.1176.2.3.10.1"]:
+        cmds.append("paramsGen scheme=stb99 name=%s cls=from-standard-seed" % nm)
+    cmds.append("paramsGen scheme=pfok name=test cls=from-standard-seed")
     cmds += G.seed_cmds(rng, tier)
     for s in seeds_std:
         L = lambda a: ",".join(str(x) for x in a)
